@@ -80,8 +80,13 @@ def ref_scf(h0, h1, chol, nelec, C0=None, maxit=400):
             Fa, Fb = fock_build(h1[0], chol, Pa, Pa + Pb), fock_build(h1[1], chol, Pb, Pa + Pb)
             ok = True
             for F_, C_, ne in ((Fa, Ca, nelec[0]), (Fb, Cb, nelec[1])):
-                w = np.linalg.eigvalsh(F_)
+                w, v = np.linalg.eigh(F_)
                 if 0 < ne < n and w[ne] - w[ne - 1] < 1e-3:
+                    ok = False
+                # aufbau: the occupied space must be spanned by the LOWEST eigenvectors of the converged Fock matrix, otherwise the
+                # solution is not a fixed point of the (aufbau) Roothaan map the property talks about (DIIS can land on such solutions
+                # for unphysical random interactions)
+                if 0 < ne < n and np.max(np.abs(v[:, :ne] @ v[:, :ne].T - C_ @ C_.T)) > 1e-8:
                     ok = False
             return ok, Ca, Cb, hf_energy(h0, h1, chol, Pa, Pb)
     return False, Ca, Cb, hf_energy(h0, h1, chol, Pa, Pb)
@@ -305,7 +310,7 @@ def eigh_case(draw, tier="quick"):
     spec = draw(st.sampled_from(["generic", "generic", "near-degenerate", "degenerate", "all-equal"]))
     ev = np.sort(draw(gens.real((n,))) * 2 + np.arange(n))
     if spec == "near-degenerate":
-        ev[1] = ev[0] + draw(st.sampled_from([1e-3, 1e-6, 1e-9, 1e-12]))
+        ev[1] = ev[0] + draw(st.sampled_from([3e-3, 1e-3, 3e-4, 1e-6, 1e-9, 1e-12]))
     elif spec == "degenerate":
         ev[1] = ev[0]
         if n > 3 and draw(st.booleans()):
@@ -335,7 +340,7 @@ def eigh_body(ctx, case):
     ctx.check_close("eigh:primal-eigenvalues", case, "eigenvalues", w, np.linalg.eigvalsh(A), 1e-10, max(1.0, float(np.max(np.abs(ev)))))
     ctx.check_close("eigh:primal-decomposition", case, "v diag(w) v^T - A", v @ np.diag(w) @ v.T, A, 1e-10, max(1.0, float(np.max(np.abs(ev)))))
     gaps = np.diff(np.sort(np.linalg.eigvalsh(A)))
-    if gaps.size and np.min(gaps) > 1e-3:
+    if gaps.size and np.min(gaps) >= 2e-4:  # 20x the routine's own degeneracy threshold (1e-5): still "non-degenerate"
         (w2, v2), (dw2, dv2) = jax.jvp(jnp.linalg.eigh, (jnp.asarray(A),), (jnp.asarray(T),))
         w2, v2, dw2, dv2 = map(np.asarray, (w2, v2, dw2, dv2))
         sc = float(np.max(np.abs(T))) / float(np.min(gaps)) + 1.0
